@@ -247,4 +247,23 @@ fn main() {
             println!("  {:<55} parse: {}", what, match r { Ok(Ok(())) => "Ok".to_string(), Ok(Err(e)) => format!("Err({})", e).chars().take(70).collect(), Err(_) => "PANIC".to_string() });
         }
     });
+    run("S21 function-exit probe + block-alternate on a block that contains `return` (C17 / C21)", || {
+        // expected: the replaced block is gone INCLUDING everything planned on its instructions; the exit probe (i32.const 99; drop)
+        // appears only where the function really exits
+        let w = wat::parse_str(r#"(module (func (param i32) local.get 0 if block return end end i32.const 5 drop))"#).unwrap();
+        let mut m = Module::parse(&w, false).unwrap();
+        {
+            let mut fm = m.functions.get_fn_modifier(FunctionID(0)).unwrap();
+            // function-level exit probe
+            fm.func_exit();
+            fm.i32_const(99);
+            fm.drop();
+            fm.finish_instr();
+            // replace the inner `block` (instruction 2) by `nop`
+            fm.inject_at(2, InstrumentationMode::BlockAlt, wasmparser::Operator::Nop);
+        }
+        let b = m.encode();
+        println!("validates: {}", wasmparser::validate(&b).is_ok());
+        show("S21", &b);
+    });
 }
